@@ -6,7 +6,7 @@ import gen_prog, lower_common, par
 OL = None
 FROLES = ['none', 'read', 'assign', 'param', 'gassign', 'gread', 'nlassign', 'nlread', 'nlaug', 'gaug', 'fortarget', 'walrus', 'lamparam', 'comptarget',
           'lamread', 'compread', 'assign_late', 'import', 'defname', 'augassign', 'classname', 'subscript_index', 'lamdefault', 'genread',
-          'nested_comp', 'lam_in_comp', 'comp_in_lam', 'kwdefault', 'posdefault', 'lamdefault_same', 'swap']
+          'nested_comp', 'lam_in_comp', 'comp_in_lam', 'kwdefault', 'posdefault', 'lamdefault_same', 'swap', 'lamkwparam', 'lamstarparam', 'defkwparam']
 CROLES = ['none', 'read', 'assign', 'gassign', 'nlassign', 'read_then_assign', 'compread', 'lamread', 'fortarget', 'walrus', 'genread']
 
 
@@ -38,6 +38,9 @@ def body(kind, role, tag, ind):
         elif role == 'augassign': L += [f"{p}x = '{tag}'", f"{p}x += '+'"]; log('x')
         elif role == 'classname': L += [f"{p}class x: v = '{tag}'"]; log('x.v')
         elif role == 'subscript_index': L += [f"{p}d_{tag} = {{}}", f"{p}d_{tag}[x] = '{tag}'", f"{p}d_{tag}[x] += '+'"]; log(f"sorted(d_{tag}.items())")
+        elif role == 'lamkwparam': L += [f"{p}log('{tag}l', (lambda *, x: x)(x='{tag}k'), (lambda a, *, x='{tag}d': (a, x))(1))"]
+        elif role == 'lamstarparam': L += [f"{p}log('{tag}l', (lambda *x: x)('{tag}s'), (lambda **x: sorted(x.items()))(k='{tag}'))"]
+        elif role == 'defkwparam': L += [f"{p}def h_{tag}(*x, **kw):", f"{p}    return x", f"{p}def k_{tag}(*, x='{tag}d'):", f"{p}    return x"]; log(f"(h_{tag}('{tag}s'), k_{tag}(), k_{tag}(x='{tag}k'))")
         elif role == 'lamdefault': L += [f"{p}log('{tag}d', (lambda y=x: y)())"]
         elif role == 'lamdefault_same': L += [f"{p}log('{tag}d', (lambda x=x: x)(), (lambda *, x=x: x)())"]
         elif role == 'swap': L += [f"{p}y_{tag} = '{tag}y'", f"{p}x, y_{tag} = y_{tag}, x"]; log(f"(x, y_{tag})")
@@ -64,7 +67,7 @@ def body(kind, role, tag, ind):
 def post(kind, role, tag, ind):
     p = '    ' * ind
     if kind == 'f':
-        if role in ('none', 'lamparam', 'comptarget', 'lamread', 'compread', 'genread', 'lamdefault', 'nested_comp', 'lam_in_comp', 'comp_in_lam', 'lamdefault_same'): return []
+        if role in ('none', 'lamparam', 'comptarget', 'lamread', 'compread', 'genread', 'lamdefault', 'nested_comp', 'lam_in_comp', 'comp_in_lam', 'lamdefault_same', 'lamkwparam', 'lamstarparam', 'defkwparam'): return []
         if role == 'assign_late': return [f"{p}x = '{tag}'", f"{p}log('{tag}post', x)"]
         if role == 'import': return [f"{p}log('{tag}post', x.__name__)"]
         if role == 'defname': return [f"{p}log('{tag}post', x())"]
